@@ -4,21 +4,17 @@ set -e
 cd "$(dirname "$0")"
 export GOFLAGS=-mod=mod GOPROXY=off GOSUMDB=off GOTOOLCHAIN=local
 mkdir -p work evidence
-# full .vo build of everything except the modules that props.d marks thorough-only
-SKIP=$(python3 - <<'PY'
-import glob, json
-skip = []
-for f in glob.glob("props.d/C*.json"):
-    skip += json.load(open(f)).get("thorough_props_mods", [])
-    skip += json.load(open(f)).get("thorough_only_mods", [])
-print(" ".join(skip))
+# full .vo build of what the enabled checks need (their Props / Check / extra modules and every
+# dependency); modules marked thorough-only in props.d are left to the thorough tier
+TARGETS=$(python3 - <<'PY'
+import sys
+sys.path.insert(0, ".")
+from props import PROPS
+mods = []
+for pid, c in sorted(PROPS.items()):
+    mods += c.get("props_mods", ["Props_" + pid]) + [c.get("check_mod", pid + "_Check")] + c.get("extra_mods", [])
+print(" ".join("theories/%s.vo" % m for m in dict.fromkeys(mods)))
 PY
 )
-TARGETS=""
-for f in coq/theories/*.v; do
-  m=$(basename "$f" .v); keep=1
-  for s in $SKIP; do [ "$m" = "$s" ] && keep=0; done
-  [ $keep = 1 ] && TARGETS="$TARGETS theories/$m.vo"
-done
 ./coq/build.sh $TARGETS
 cd harness && go build -tags verif ./... && echo "setup ok"
